@@ -155,6 +155,21 @@ CHECKS += [
      "note": "Well-formed = advance only from valid or new states, rollback only to valid states (what the scheduler does)."},
 ]
 
+CHECKS += [
+    {"id": "C26", "engine": "evloop", "level": "exploration",
+     "technique": "bounded-exhaustive enumeration of job chains x override dicts x configured/run contexts on the real scheduler, reference deep-merge oracle",
+     "text": "All chains of 3 nested jobs with update_context overrides from 7 (quick) / 9 (thorough) dicts, x configured context x run(context=); "
+     "at the leaf 18 dotted paths (incl. missing, non-mapping, too deep) are read through get_context in the body and through expression-valued "
+     "default arguments and compared with a reference deep merge + path lookup.",
+     "note": _SCHED_NOTE},
+    {"id": "C27", "engine": "evloop", "level": "exploration",
+     "technique": "bounded-exhaustive enumeration of job chains x option placements on the real scheduler, options observed by an interposed executor",
+     "text": "All chains of 3 jobs where each level sets option k at definition time (plain/exported) and/or call time (options, export_options, "
+     "expression-valued); the options each job is submitted with must equal the documented precedence; plus scheduler-imposed cache scope "
+     "(run(cache=False)) and prov=False ancestors.",
+     "note": _SCHED_NOTE},
+]
+
 _ALL = [f"C{i:02d}" for i in range(1, 39)]
 _claimed = {c["id"] for c in CHECKS}
 _REASONS = {}
